@@ -100,8 +100,8 @@ def random_step(rng, sched, bias):
     if name in L.LOOP_TRANS:
         loops = [i for i, n in enumerate(nodes) if isinstance(n, Loop)]
         if loops and rng.random() < 0.85:
-            return [name, [rng.choice(loops)]]
-        return [name, [rng.randrange(len(nodes))]]
+            return [name, [rng.choice(loops)], random_options(rng, name)]
+        return [name, [rng.randrange(len(nodes))], random_options(rng, name)]
     a = rng.randrange(len(nodes))
     tg = [a]
     par, pos = nodes[a].parent, nodes[a].position
@@ -115,16 +115,53 @@ def random_step(rng, sched, bias):
         tg.reverse()
     elif r < 0.11:
         tg = [len(nodes) + rng.randrange(3)]          # out of range
-    return [name, tg]
+    return [name, tg, random_options(rng, name) if rng.random() < 0.5 else None]
 
 
 def step_sx(step):
-    name, tg = step
+    name, tg = step[0], step[1]
+    o = (step[2] if len(step) > 2 else None) or {}
     if name == "colour":
         return ["c", tg[0]]
+    tc = 0 if o.get("node-type-check") is False else 1
     if name in L.PAR_LOOP_TRANS:
-        return ["p", {"omp_parallel_do": 0, "omp_do": 1, "acc_loop": 2, "gen_omp_do": 3, "gen_omp_parallel_do": 4}[name], tg[0]]
-    return ["r", {"omp_parallel": 0, "acc_parallel": 1, "acc_kernels": 2}[name]] + list(tg)
+        t = {"omp_parallel_do": 0, "omp_do": 1, "acc_loop": 2, "gen_omp_do": 3, "gen_omp_parallel_do": 4}[name]
+        return ["p", t, 1 if o.get("sequential") else 0, 1 if o.get("gang") else 0, 1 if o.get("vector") else 0,
+                o.get("collapse") or 0, tc, tg[0]]
+    return ["r", {"omp_parallel": 0, "acc_parallel": 1, "acc_kernels": 2}[name], tc,
+            0 if o.get("disable_loop_check") else 1] + list(tg)
+
+
+def random_options(rng, name):
+    """Option dictionaries: default most of the time for the random stream, every documented option otherwise."""
+    o = {}
+    if name == "colour":
+        return None
+    if name in L.PAR_LOOP_TRANS:
+        if name == "acc_loop":
+            bits = rng.randrange(8)                      # all 2^3 combinations of sequential / gang / vector
+            o.update(sequential=bool(bits & 1), gang=bool(bits & 2), vector=bool(bits & 4))
+            if rng.random() < 0.3:
+                o["independent"] = rng.random() < 0.5
+        else:
+            if rng.random() < 0.2:
+                o["sequential"] = True
+            if rng.random() < 0.3:
+                o["reprod"] = rng.random() < 0.5
+            if rng.random() < 0.3:
+                o["omp_schedule"] = rng.choice(["static", "dynamic", "guided", "auto", "runtime", "static,4"])
+        if rng.random() < 0.2:
+            o["collapse"] = rng.choice([2, 2, 3, 1])
+        if rng.random() < 0.1:
+            o["node-type-check"] = False
+    else:
+        if rng.random() < 0.15:
+            o["node-type-check"] = False
+        if name in ("acc_parallel", "acc_kernels") and rng.random() < 0.3:
+            o["default_present"] = rng.random() < 0.5
+        if name == "acc_kernels" and rng.random() < 0.3:
+            o["disable_loop_check"] = True
+    return o or None
 
 
 def forest_in_sx(sched):
@@ -272,7 +309,8 @@ def case_src(case):
 def judge(chk, case, real, mo, dist):
     """Compare one history; returns a violation payload or None."""
     m = parse_sx(mo) if mo.startswith("(") else None
-    agreed = (m is not None and m[0] == real["results"] and m[3] == real["final"])
+    agreed = (m is not None and m[0] == real["results"] and m[3] == real["final"]
+              and (m[2] == 1) == (real["unsafe_final"] is None))      # model's safe1 == Safe evaluated on the real schedule
     gen_ok = real["gen"] == "ok"
     if m is not None and agreed and gen_ok and m[1] == 0:
         agreed = False   # model says generation must refuse, real generation succeeded
@@ -297,7 +335,8 @@ def judge(chk, case, real, mo, dist):
         return dict(src, kind="failing-input", invoke=case.get("invoke", 0), dm=case["dm"], steps=real["steps"],
                     observed="all steps with result 1 accepted %s, code generated; %s" % (real["results"], bad),
                     expected="the parallelisation of the uncoloured loop is refused (or generation refuses)",
-                    schedule=real["final"], da_assumption=real["da_assumption"])
+                    schedule=real["final"], da_assumption=real["da_assumption"],
+                    model_agrees=agreed, model_says_unsafe=(m is not None and m[2] == 0), results=real["results"])
     if not agreed or real["da_assumption"]:
         what = "real transformations differ from C23.runSkip" if not agreed else \
             "assumption on the generic dependence analysis broken: " + "; ".join(real["da_assumption"][:2])
@@ -308,13 +347,29 @@ def judge(chk, case, real, mo, dist):
     return None
 
 
-def sweep_steps(info, dm, invoke, name):
-    """Systematic sweep: `name` applied to every loop of the fresh schedule, last loop first (wrapping a later node does
-    not shift the pre-order indices of earlier ones)."""
+ACC_COMBOS = [dict(sequential=bool(b & 1), gang=bool(b & 2), vector=bool(b & 4)) for b in range(8)]
+SWEEP = ([("acc_loop", o) for o in ACC_COMBOS]
+         + [(n, o) for n in ("omp_parallel_do", "omp_do", "gen_omp_do", "gen_omp_parallel_do")
+            for o in (None, {"sequential": True})])
+
+
+def sweep_steps(info, dm, invoke, name, opts, coloured):
+    """Systematic sweep: `name` with options `opts` applied to every loop of the fresh schedule, last loop first (wrapping a
+    later node does not shift the pre-order indices of earlier ones).  With `coloured`, every loop over cells on a
+    continuous space is coloured first and the transformation is then applied to every colours AND colour loop."""
     from psyclone.psyir.nodes import Loop
     psy = L.make_psy(info, dm)
-    nodes = L.statement_nodes(psy.invokes.invoke_list[invoke].schedule)
-    return [[name, [i]] for i, n in reversed(list(enumerate(nodes))) if isinstance(n, Loop)]
+    sched = psy.invokes.invoke_list[invoke].schedule
+    steps = []
+    if coloured:
+        nodes = L.statement_nodes(sched)
+        for i, n in reversed(list(enumerate(nodes))):
+            if isinstance(n, Loop) and n.loop_type == "":
+                st = ["colour", [i], None]
+                if L.apply_step(sched, st)[0] == "ok":
+                    steps.append(st)
+    nodes = L.statement_nodes(sched)
+    return steps + [[name, [i], opts] for i, n in reversed(list(enumerate(nodes))) if isinstance(n, Loop)]
 
 
 def n_invokes_of(info, dm=False):
@@ -334,7 +389,11 @@ def run(chk):
                        "evaluators, mesh and reference-element properties, inter-grid); distributed memory on and off; "
                        "non-trivial = at least one accepted step; distinct by canonical JSON")
     chk.assumptions += [
-        "transformations are applied with default options (no options={'force': True}, no 'sequential')",
+        "options: every documented option of the transformations is varied (sequential/gang/vector in all 8 combinations, "
+        "independent, collapse, reprod, OpenMP schedule, node-type-check, default_present, disable_loop_check); only "
+        "options={'force': True} is excluded (it is by nature an override of the checks)",
+        "an `acc loop` is parallel unless the directive text it EMITS carries the `seq` clause (read from "
+        "ACCLoopDirective.begin_string(), not from the options passed)",
         "targets are statement-level nodes of the invoke schedule (children of Schedules), addressed in pre-order",
         "the generic dependence analysis (DependencyTools.can_loop_be_parallelised) answers False without raising for an LFRic "
         "loop over cells whose kernel has an INC/READINC argument; CHECKED on every case (on the fresh schedule) and by the "
@@ -356,9 +415,9 @@ def run(chk):
     thorough = chk.tier == "thorough"
     n_synth = 50 if thorough else 8
     n_bundled = 60 if thorough else 14
-    per_invoke = 500 if thorough else 40
+    per_invoke = 400 if thorough else 30
     dist = {"accepted_steps": 0, "refused_steps": 0, "gen_ok": 0, "gen_fail": 0, "crash_instead_of_refusal": 0,
-            "da_assumption_broken": 0}
+            "da_assumption_broken": 0, "failing_inputs_in_known_finding_class": 0}
     found = None
     findings = common.known_findings("C23")
     with L.Workdir() as wd:
@@ -406,13 +465,14 @@ def run(chk):
         # ---- systematic sweep ---------------------------------------------------------
         n_sweep = 0
         for src, info in sources:
-            for inv in range(min(n_invokes_of(info), 3 if not thorough else 8)):
+            for inv in range(min(n_invokes_of(info), 2 if not thorough else 8)):
                 for dm in (False, True):
-                    for name in L.PAR_LOOP_TRANS:
-                        steps = sweep_steps(info, dm, inv, name)
-                        cases.append(dict(src, dm=dm, invoke=inv))
-                        reals.append(run_history_real(info, dm, steps=steps, invoke=inv, complete=True))
-                        n_sweep += 1
+                    for name, opts in SWEEP:
+                        for coloured in ((False, True) if (opts and opts.get("sequential")) else (False,)):
+                            steps = sweep_steps(info, dm, inv, name, opts, coloured)
+                            cases.append(dict(src, dm=dm, invoke=inv))
+                            reals.append(run_history_real(info, dm, steps=steps, invoke=inv, complete=True))
+                            n_sweep += 1
         # ---- random histories ---------------------------------------------------------
         for src, info in sources:
             ninv = n_invokes_of(info)
@@ -426,7 +486,9 @@ def run(chk):
         for idx, (case, real) in enumerate(zip(cases, reals)):
             mo = model[idx] if model is not None else "no-model"
             payload = judge(chk, case, real, mo, dist)
-            if payload and not in_known_class(payload, findings):
+            if payload and in_known_class(payload, findings):
+                dist["failing_inputs_in_known_finding_class"] += 1
+            elif payload:
                 found = minimise(wd, payload)
                 break
     chk.cov["distribution"] = dist
@@ -441,8 +503,26 @@ def run(chk):
             chk.known(e["what"])
 
 
+def seq_generic_omp_steps(payload):
+    """accepted steps of the class of finding C23-sequential-generic-omp: a generic OpenMP loop transformation that was
+    given options['sequential'] = True"""
+    out = []
+    for st, ok in zip(payload["steps"], payload.get("results") or [1] * len(payload["steps"])):
+        if ok and st[0] in ("gen_omp_do", "gen_omp_parallel_do") and len(st) > 2 and st[2] and st[2].get("sequential"):
+            out.append(st)
+    return out
+
+
 def in_known_class(payload, findings):
-    """A failing input belongs to a listed finding iff the finding's classifier accepts it (no open class for C23)."""
+    """A failing input belongs to a listed finding iff (i) the committed model reproduces it: model and code agree on the
+    whole history and the model's own safe1 is false - by theorem C23_holds_partial this can only be due to a step outside
+    `Step.seqOk`; and (ii) the finding's classifier accepts it: the history contains an accepted generic-OpenMP step with
+    sequential=True and the failure is a clause-1 failure."""
+    for e in findings:
+        if e.get("classifier") == "accepted generic OMPLoopTrans/OMPParallelLoopTrans step with options['sequential']=True":
+            if (payload.get("model_agrees") and payload.get("model_says_unsafe") and seq_generic_omp_steps(payload)
+                    and "parallel loop of type" in payload.get("observed", "")):
+                return e
     return None
 
 
@@ -473,7 +553,7 @@ def minimise(wd, payload):
         for i in range(len(steps)):
             cand = steps[:i] + steps[i + 1:]
             # removing a wrapping step shifts later pre-order indices down by one
-            cand2 = steps[:i] + [[n, [t - 1 if t > steps[i][1][0] else t for t in tg]] for n, tg in steps[i + 1:]]
+            cand2 = steps[:i] + [[st[0], [t - 1 if t > steps[i][1][0] else t for t in st[1]]] + list(st[2:]) for st in steps[i + 1:]]
             for c in (cand, cand2):
                 if c and fails(c):
                     steps, changed = c, True
